@@ -17,7 +17,9 @@ import (
 	"fmt"
 	"go/types"
 	"golang.org/x/crypto/ed25519"
+	"golang.org/x/crypto/ripemd160"
 	"golang.org/x/crypto/sha3"
+	"math/big"
 
 	"gosym/sym"
 )
@@ -507,6 +509,68 @@ func init() {
 		}
 		externals[recv+".Size"] = func(fr *frame, args []value) value { return get(fr, args[0]).size }
 		externals[recv+".BlockSize"] = func(fr *frame, args []value) value { return get(fr, args[0]).block }
+	}
+
+	// tendermint secp256k1 public keys: address derivation is native; verification
+	// refuses what the real parser refuses without looking at the message (a length
+	// other than 64, r = s = 0); anything else would need the curve
+	const tmsecp = "(github.com/tendermint/tendermint/crypto/secp256k1.PubKeySecp256k1)"
+	externals[tmsecp+".Address"] = func(fr *frame, args []value) value {
+		fr.i.x.stub("secp256k1 address derivation (native ripemd160(sha256(key)))")
+		h := sha256.Sum256(arrayBytes(args[0]))
+		r := ripemd160.New()
+		r.Write(h[:])
+		return bytesValue(r.Sum(nil))
+	}
+	externals[tmsecp+".String"] = func(fr *frame, args []value) value {
+		return fmt.Sprintf("PubKeySecp256k1{%X}", arrayBytes(args[0]))
+	}
+	externals[tmsecp+".VerifyBytes"] = func(fr *frame, args []value) value {
+		fr.i.x.stub("secp256k1 verification (only signatures the parser refuses: wrong length or all zero; genuine ones are not modelled)")
+		sig, _ := args[2].([]value)
+		if len(sig) != 64 {
+			return false
+		}
+		for _, b := range sig {
+			if c, ok := b.(byte); !ok || c != 0 {
+				panic(abortPath{"secp256k1 verification of a non-zero signature is not modelled"})
+			}
+		}
+		return false
+	}
+	// btcec: compressed serialisation of a public key with concrete coordinates;
+	// DER parsing of bytes the real parser refuses
+	const btcecPkg = "github.com/btcsuite/btcd/btcec"
+	externals["(*"+btcecPkg+".PublicKey).SerializeCompressed"] = func(fr *frame, args []value) value {
+		p, _ := args[0].(*value)
+		if p == nil {
+			panic(nilDeref())
+		}
+		st := (*p).(structure)
+		coord := func(v value) *big.Int {
+			t := bigGet(v)
+			if !t.IsConst() {
+				panic(abortPath{"symbolic curve point"})
+			}
+			return t.Val
+		}
+		x, y := coord(st[1]), coord(st[2])
+		out := make([]byte, 33)
+		out[0] = 2 + byte(y.Bit(0))
+		xb := x.Bytes()
+		copy(out[33-len(xb):], xb)
+		return bytesValue(out)
+	}
+	externals[btcecPkg+".S256"] = func(fr *frame, args []value) value {
+		return (*value)(nil)
+	}
+	externals[btcecPkg+".ParseDERSignature"] = func(fr *frame, args []value) value {
+		fr.i.x.stub("btcec DER signature parsing (only byte strings without the DER header: refused as the real parser refuses them)")
+		sig := concreteBytes(args[0].([]value), "DER signature")
+		if len(sig) >= 8 && sig[0] == 0x30 {
+			panic(abortPath{"btcec.ParseDERSignature of a DER-shaped signature is not modelled"})
+		}
+		return tuple{(*value)(nil), fr.i.makeError("malformed signature")}
 	}
 
 	// (*types.Transaction).Size: rlp length of the inner transaction; only
